@@ -702,9 +702,10 @@ class Unary(Expression):
 
     @contextmanager
     def calculate(self, dst, long, force=False):
-        with self.arg.calculate(dst, long, force) as (dst, long):
-            self.calculate_unary(dst, long)
-            yield dst, long
+        with self.ebpf.get_free_register(dst) as dst:
+            with self.arg.calculate(dst, long, True) as (dst, long):
+                self.calculate_unary(dst, long)
+                yield dst, long
 
     def contains(self, no):
         return self.arg.contains(no)
